@@ -103,6 +103,10 @@ UNKNOWN = ("unknown",)
 EITHER = ("either",)
 
 
+import functools
+
+
+@functools.lru_cache(maxsize=1 << 16)
 def classify16(v, dt):
     """('known', row, args) | ('unknown',) | ('either',) for a 16-bit forward frame under device type dt."""
     hi, lo = v // 256, v % 256
@@ -157,6 +161,7 @@ def idx_dapc():
     return _dapc
 
 
+@functools.lru_cache(maxsize=1 << 16)
 def classify24(v):
     """Command frames only (bit 16 set); event frames are handled by models.events_ref."""
     b2, b1, b0 = v // 65536, (v // 256) % 256, v % 256
